@@ -107,6 +107,7 @@ def run(tier, seed, build, res):
                                      'output %r, the documented table gives %r'
                                      % ((im[1][1], im[1][2]), want)))
     options_stream(rng, res, 300 if tier == 'quick' else 6000)
+    cli_stream(rng, res, 6 if tier == 'quick' else 120)
     # the table of the property text against the table of the code
     got = {k: v for k, v in parms.special_tokens.items()}
     for k, v in TABLE.items():
@@ -148,6 +149,35 @@ def options_stream(rng, res, n):
                     'table gives %r' % ((im[1][1], im[1][2]), c.nosp, c.pack, c.lang, want))
         return None
     universe.run(cases, res, 'options', project, oracle)
+
+
+def cli_stream(rng, res, n):
+    """the same claim at the command line (python -m yalafi, file and
+    standard input): what is written equals the table oracle, the --nums file
+    is its position map; inputs with and without a final line break"""
+    import shellrun
+    texts = ['x', 'Plain prose', 'Plain prose\n', 'a -- b\n', 'end with dash --', 'two\nlines', '',
+             'tab\there \\% x', 'q ~']
+    for _ in range(n):
+        s = ''.join(rng.choice(WIDE) for _ in range(rng.randint(1, 30)))
+        if not on_blank_line(s):
+            texts.append(s)
+    for i, t in enumerate(texts):
+        if on_blank_line(t) or '\r' in t:
+            continue
+        via_stdin = i % 2 == 1
+        if via_stdin:
+            rc, out, err, files = shellrun.run_filter(['--nums', 'nums.txt'], stdin_text=t)
+        else:
+            rc, out, err, files = shellrun.run_filter(['--nums', 'nums.txt', 'in.tex'],
+                                                      files={'in.tex': t})
+        res.count('cli', ('cli', t, via_stdin), nontrivial=any(k in t for k in KEYS))
+        want = reference(t)
+        nums = [int(x) for x in files.get('nums.txt', '').split()]
+        if rc != 0 or out != want[0] or nums != want[1]:
+            res.failures.append(('c06-cli:%r:%r' % (t, via_stdin), {'latex': t, 'stdin': via_stdin},
+                                 'python -m yalafi writes %r with positions %r, the documented '
+                                 'table gives %r' % (out, nums[:12], want)))
 
 
 def replay(payload, build, res):
